@@ -55,6 +55,7 @@ def handleLine (line : String) : String :=
     | "c15r" => C15.handleReq args obs
     | "c15s" => C15.handleSet args obs
     | "c16n" => C16.handleNew args obs
+    | "c16f" => C16.handleFunnels args obs
     | "c16a" => C16.handleAdd args obs
     | "c17" => C17.handle args obs
     | "c18" => C18.handle args obs
